@@ -20,6 +20,7 @@ func init() {
 	env.Register("C14_MainLoop", C14_MainLoop)
 	env.Register("C13_CommitThenPrepared", C13_CommitThenPrepared)
 	env.Register("C14_SyncDuringProposal", C14_SyncDuringProposal)
+	env.Register("C19_StaleTrigger", C19_StaleTrigger)
 }
 
 type c13Obs struct {
@@ -465,4 +466,55 @@ func C14_SyncDuringProposal() {
 	}
 	env.Assert("C14.sync_takes_effect", uint64(n.m.state.Height()) == b+1)
 	env.Reach("C14.sync_during_proposal")
+}
+
+// C19_StaleTrigger: "re-arming for another pair guarantees that no trigger of the old pair is acted upon", on the
+// consuming side. The node leaves view 0 through a genuine NEW_VIEW of view 1 (or by `timeouts` election timeouts);
+// a trigger that is still in flight - symbolic (height, view) other than the node's current position, carrying the
+// callback that was registered for view 0 - is then read by one iteration of the real WorkerLoop.Run (channel
+// model). It must not be acted upon: the view stays, no VIEW_CHANGE is sent. A trigger for the current position,
+// carrying the current registration, is acted upon.
+func C19_StaleTrigger() {
+	const me = 3
+	wd := newWorld(me, equalWeights(4))
+	n, net := wd.n, wd.net
+	old := n.el.Last() // registered for (1,0)
+	env.Assume(old != nil && old.V == 0)
+	if env.Param("by_new_view") == 1 {
+		var votes []*interfaces.ViewChangeMessage
+		for _, i := range othersOf(me) {
+			votes = append(votes, net.vcm(i, 1, 1, nil))
+		}
+		n.deliver(net.nvm(1, 1, 1, votes, &stub.Block{H: 1, Tag: 0x27, ProposalOK: true}).ToConsensusRawMessage())
+	} else {
+		n.timeout()
+	}
+	env.Assume(n.m.state.View() == 1)
+	stale := env.NondetBool("trigger_is_stale")
+	cb := n.el.Last()
+	th, tv := uint64(1), uint64(1)
+	if stale {
+		th, tv = env.NondetU64("th"), env.NondetU64("tv")
+		env.Assume(!(th == 1 && tv == 1))
+		cb = old
+	}
+	trig := &interfaces.ElectionTrigger{Hv: state.NewHeightView(primitives.BlockHeight(th), primitives.View(tv)), MoveToNextLeader: func() { cb.Cb(cb.H, cb.V, nil) }}
+	n.m.worker.electionChannel <- trig
+	out := len(n.comm.Out)
+	ctx := env.CancelWhenIdle()
+	p := env.Catch(func() { n.m.worker.Run(ctx) })
+	env.Assert("C19.worker.no_panic", p == 0)
+	sentVote := false
+	for _, sm := range n.comm.Out[out:] {
+		if _, ok := sm.Msg.(*interfaces.ViewChangeMessage); ok {
+			sentVote = true
+		}
+	}
+	if stale {
+		env.Assert("C19.stale_trigger_ignored", n.m.state.View() == 1 && !sentVote)
+		env.Reach("C19.stale.done")
+	} else {
+		env.Assert("C19.current_trigger_acted_upon", n.m.state.View() == 2 && sentVote)
+		env.Reach("C19.current.done")
+	}
 }
